@@ -3,8 +3,8 @@ C09 — model of the logical type combinators of utype.
 
 Part A (`logical*`): `LogicalType.logical_parse`, utype/parser/rule.py:359-467 (after the `fix:` patches
 utype commits 4070fa5 (xor), 592a37c and c9f6bef (AllOf)), branch for branch, over *abstract* argument
-parsers: an argument is a pair ⟨`exact v` = `type(value) == con`, `run o v` = `context.transformer(value, con)`
-under options `o`⟩, so every theorem holds for every argument type (builtin, constrained, generic, data class,
+parsers: an argument is a pair ⟨`exact v` = `type(value) == con`, `run o c v` = `ctx.transformer(value, con)` for a
+context with options `o` and error state `c`, returning the new state⟩, so every theorem holds for every argument type (builtin, constrained, generic, data class,
 nested combinator).  The error bookkeeping of `RuntimeContext` (options.py:444-480: `errors`, `tmp_errors`,
 `handle_error`, `collect_tmp_error`, `clear_tmp_error`, `raise_error`) is modelled explicitly because the
 branches depend on it (an error raised by `handle_error` inside a `try` is swallowed but stays in `errors`).
@@ -51,16 +51,24 @@ def Err.collected (es : List Err) : Err := .mk Err.collectedId es
 def Err.oneOf : Err := .mk Err.oneOfId []
 def Err.negate : Err := .mk Err.negateId []
 
-/-- one argument of a combinator, as `logical_parse` sees it -/
-structure Arg (V : Type) where
-  exact : V → Bool                        -- `type(value) == con`
-  run   : Opts → V → Except Err V         -- `context.transformer(value, con)`; `.error` = any `Exception`
-
 /-- `RuntimeContext.errors` / `.tmp_errors` -/
 structure Ctx where
   errors : List Err := []
   tmp    : List Err := []
   deriving Repr
+
+/-- what a call leaves behind: the (possibly changed) context of the caller and the value or exception -/
+abbrev Res (V : Type) := Ctx × Except Err V
+
+/-- one argument of a combinator, as `logical_parse` sees it.  `run o c v` = `ctx.transformer(value, con)` where `ctx`
+has options `o` and the error state `c`; the argument may change that state (a `Rule` records an error in the
+context it was GIVEN before raising it; a nested combinator under `&` works on its parent's context). -/
+structure Arg (V : Type) where
+  exact : V → Bool                        -- `type(value) == con`
+  run   : Opts → Ctx → V → Res V          -- `.error` = any `Exception`
+
+/-- the argument measured in isolation: called with a fresh context -/
+def Arg.out {V : Type} (a : Arg V) (o : Opts) (v : V) : Except Err V := (a.run o {} v).2
 
 def Ctx.push (c : Ctx) (e : Err) : Ctx := { c with errors := c.errors ++ [e] }
 
@@ -75,13 +83,13 @@ def handleError (o : Opts) (c : Ctx) (e : Err) : Ctx × Option Err :=
     | none => (c.push e, none)
 
 /-- `raise_error(); return value` (options.py:444-452) -/
-def raiseError {V : Type} (c : Ctx) (v : V) : Except Err V :=
-  if c.errors.isEmpty && c.tmp.isEmpty then .ok v else .error (.collected (c.errors ++ c.tmp))
+def raiseError {V : Type} (c : Ctx) (v : V) : Res V :=
+  (c, if c.errors.isEmpty && c.tmp.isEmpty then .ok v else .error (.collected (c.errors ++ c.tmp)))
 
 /-- a `handle_error(e)` that is not inside a `try`, followed (if it returns) by `break … raise_error(); return value` -/
-def afterHandle {V : Type} (p : Ctx × Option Err) (v : V) : Except Err V :=
+def afterHandle {V : Type} (p : Ctx × Option Err) (v : V) : Res V :=
   match p with
-  | (_, some e') => .error e'          -- `handle_error` raises out of logical_parse
+  | (c, some e') => (c, .error e')     -- `handle_error` raises out of logical_parse
   | (c, none) => raiseError c v        -- `break`, then `raise_error()`
 
 /-- `self.options & options` (options.py:300-311) for the two option sets `logical_parse` builds -/
@@ -90,7 +98,7 @@ def strictOpts (o : Opts) : Opts :=
 def noLossOpts (o : Opts) : Opts :=
   if o.override then o else { o with noDataLoss := true }
 
-/-- the option sets of the union stages 2, 3, 4 in order (rule.py:382-423) -/
+/-- the option sets of the union stages 2, 3, 4 in order (rule.py:388-429) -/
 def stages (o : Opts) : List Opts :=
   (if !o.noDataLoss || !o.noExplicitCast then [strictOpts o] else [])
   ++ (if !o.noDataLoss && !o.noExplicitCast then [noLossOpts o] else [])
@@ -99,28 +107,29 @@ def stages (o : Opts) : List Opts :=
 section
 variable {V : Type}
 
-/-! ### `&` (rule.py:366-376; a non-ParseError exception of a condition is wrapped into ParseError) -/
+/-! ### `&` (rule.py:366-379): the conditions run on the combinator's OWN context (no `enter`); a non-ParseError
+exception of a condition is wrapped into ParseError -/
 
-/-- the loop: running value, and the first exception -/
-def allLoop (o : Opts) : List (Arg V) → V → V × Option Err
-  | [], v => (v, none)
-  | a :: as, v =>
-    match a.run o v with
-    | .ok v' => allLoop o as v'
-    | .error e => (v, some e)
+/-- the loop: context, running value, and the first exception -/
+def allLoop (o : Opts) : List (Arg V) → Ctx → V → Ctx × V × Option Err
+  | [], c, v => (c, v, none)
+  | a :: as, c, v =>
+    match a.run o c v with
+    | (c', .ok v') => allLoop o as c' v'
+    | (c', .error e) => (c', v, some e)
 
-def logicalAll (as : List (Arg V)) (o : Opts) (v : V) : Except Err V :=
-  match allLoop o as v with
-  | (v', none) => raiseError {} v'
-  | (v', some e) => afterHandle (handleError o {} e.wrapParse) v'
+def logicalAll (as : List (Arg V)) (o : Opts) (c : Ctx) (v : V) : Res V :=
+  match allLoop o as c v with
+  | (c', v', none) => raiseError c' v'
+  | (c', v', some e) => afterHandle (handleError o c' e.wrapParse) v'
 
-/-! ### `|` (rule.py:376-423) -/
+/-! ### `|` (rule.py:381-429): every condition runs in a context of its own (`context.enter`), whose state is dropped -/
 
 /-- one stage: try every argument under options `s`; `tmp` = `context.tmp_errors` -/
 def tryArgs (s : Opts) (v : V) : List (Arg V) → List Err → Option V × List Err
   | [], tmp => (none, tmp)
   | a :: as, tmp =>
-    match a.run s v with
+    match a.out s v with
     | .ok r => (some r, [])                     -- `clear_tmp_error(); return val`
     | .error e => tryArgs s v as (tmp ++ [e])   -- `collect_tmp_error(e)`
 
@@ -131,30 +140,30 @@ def unionStages (as : List (Arg V)) (v : V) : List Opts → List Err → Option 
     | (some r, _) => (some r, [])
     | (none, tmp') => unionStages as v ss tmp'
 
-def logicalUnion (as : List (Arg V)) (o : Opts) (v : V) : Except Err V :=
-  if as.any (fun a => a.exact v) then .ok v          -- 1. EXACT identical type
-  else match unionStages as v (stages o) [] with
-    | (some r, _) => .ok r
-    | (none, tmp) => raiseError { tmp := tmp } v
+def logicalUnion (as : List (Arg V)) (o : Opts) (c : Ctx) (v : V) : Res V :=
+  if as.any (fun a => a.exact v) then (c, .ok v)          -- 1. EXACT identical type: `return value`
+  else match unionStages as v (stages o) c.tmp with
+    | (some r, _) => ({ c with tmp := [] }, .ok r)        -- `clear_tmp_error(); return val` (no `raise_error`)
+    | (none, tmp) => raiseError { c with tmp := tmp } v
 
-/-! ### `^` after the fix (rule.py:425-456) -/
+/-! ### `^` after the fix (rule.py:431-462) -/
 
 /-- the loop: `(result of the only accepting condition so far, tmp_errors, violated?)` -/
 def xorLoop (o : Opts) (v : V) : List (Arg V) → Option V → List Err → Option V × List Err × Bool
   | [], acc, tmp => (acc, tmp, false)
   | a :: as, acc, tmp =>
-    match a.run o v with
+    match a.out o v with
     | .error e => xorLoop o v as acc (tmp ++ [e])
     | .ok r =>
       match acc with
       | none => xorLoop o v as (some r) tmp
       | some _ => (none, tmp, true)              -- second acceptance: `xor = None; handle_error; break`
 
-def logicalXor (as : List (Arg V)) (o : Opts) (v : V) : Except Err V :=
-  match xorLoop o v as none [] with
-  | (_, tmp, true) => afterHandle (handleError o { tmp := tmp } .oneOf) v
-  | (some r, _, false) => .ok r                   -- `clear_tmp_error(); value = result`
-  | (none, tmp, false) => raiseError { tmp := tmp } v
+def logicalXor (as : List (Arg V)) (o : Opts) (c : Ctx) (v : V) : Res V :=
+  match xorLoop o v as none c.tmp with
+  | (_, tmp, true) => afterHandle (handleError o { c with tmp := tmp } .oneOf) v
+  | (some r, _, false) => raiseError { c with tmp := [] } r      -- `clear_tmp_error(); value = result`; `raise_error()`
+  | (none, tmp, false) => raiseError { c with tmp := tmp } v
 
 /-! ### `^` before the fix (kept for the witnesses): exact-type shortcut, the value converted by one
 condition is passed to the next, and the exception raised by `handle_error` is caught by the loop's own
@@ -163,7 +172,7 @@ condition is passed to the next, and the exception raised by `handle_error` is c
 def xorLoopLegacy (o : Opts) : List (Arg V) → V → Bool → Ctx → V × Bool × Ctx
   | [], v, x, c => (v, x, c)
   | a :: as, v, x, c =>
-    match a.run o v with
+    match a.out o v with
     | .error e => xorLoopLegacy o as v x { c with tmp := c.tmp ++ [e] }
     | .ok r =>
       if !x then xorLoopLegacy o as r true c
@@ -174,23 +183,23 @@ def xorLoopLegacy (o : Opts) : List (Arg V) → V → Bool → Ctx → V × Bool
 def logicalXorLegacy (as : List (Arg V)) (o : Opts) (v : V) : Except Err V :=
   if as.any (fun a => a.exact v) then .ok v
   else match xorLoopLegacy o as v false {} with
-    | (v', true, c) => raiseError { c with tmp := [] } v'
-    | (v', false, c) => raiseError c v'
+    | (v', true, c) => (raiseError { c with tmp := [] } v').2
+    | (v', false, c) => (raiseError c v').2
 
-/-! ### `~` (rule.py:458-470) -/
+/-! ### `~` (rule.py:464-476) -/
 
 def negLoop (o : Opts) (v : V) : List (Arg V) → Ctx → Ctx
   | [], c => c
   | a :: as, c =>
-    match a.run o v with
+    match a.out o v with
     | .error _ => c                               -- `except Exception: break`
     | .ok _ =>
       match handleError o c .negate with
       | (c1, some _) => c1                        -- raised inside the `try`: caught, `break`
       | (c1, none) => negLoop o v as c1
 
-def logicalNeg (as : List (Arg V)) (o : Opts) (v : V) : Except Err V :=
-  raiseError (negLoop o v as {}) v
+def logicalNeg (as : List (Arg V)) (o : Opts) (c : Ctx) (v : V) : Res V :=
+  raiseError (negLoop o v as c) v
 
 end
 
@@ -212,6 +221,12 @@ inductive Ty where
   | lit (key : Nat)                -- a literal value such as 3 or 'a' (becomes Literal[...])
   | annot (key : Nat) (uid : Nat)  -- the NEW class `Rule.annotate` makes from `alias key`
   | comb (c : Comb) (args : List Ty) (uid : Nat)   -- a LogicalType with combinator
+  | str (key : Nat)                -- a string operand (a forward reference by name)
+  | fwd (key : Nat)                -- `ForwardRef(name)` (compares equal by name); unevaluated: C17's business
+  | selfT (id : Nat)               -- `typing.Self` (kept as it is by `_parse_arg`)
+  | tunion (members : List Ty)     -- `typing.Union[...]` / `Optional[...]` of classes / None (distinct, no Any: typing
+                                   --   itself flattens and removes duplicates)
+  | wrap (inner : Ty) (uid : Nat)  -- the anonymous `Rule[AnyOf(...)]` that `Rule.annotate` puts around a typing.Union
   deriving Repr
 
 /-- `a == b` on these objects: identity -/
@@ -226,11 +241,15 @@ def Ty.same : Ty → Ty → Bool
   | .lit a, .lit b => a == b
   | .annot _ u, .annot _ v => u == v
   | .comb _ _ u, .comb _ _ v => u == v
+  | .str a, .str b => a == b
+  | .fwd a, .fwd b => a == b
+  | .selfT _, .selfT _ => true
+  | .wrap _ u, .wrap _ v => u == v
   | _, _ => false
 
 /-- `isinstance(x, LogicalType)` -/
 def Ty.isLogical : Ty → Bool
-  | .rule _ | .ruleBase | .annot _ _ | .comb _ _ _ => true
+  | .rule _ | .ruleBase | .annot _ _ | .comb _ _ _ | .wrap _ _ => true
   | _ => false
 
 def Ty.combinator : Ty → Option Comb
@@ -244,11 +263,20 @@ def Ty.args : Ty → List Ty
 /-- the reserved NoneType class id -/
 def noneTypeId : Nat := 0
 
-/-- `_parse_arg` (rule.py:152-177); `uid` is the serial of the class `Rule.annotate` would create -/
+/-- a member of a typing.Union as `Rule.annotate` hands it to `any_of` -/
+def parseMember : Ty → Ty
+  | .noneV => .cls noneTypeId
+  | t => t
+
+/-- `combine`'s `isinstance(arg, str) → ForwardRef(arg)` followed by `_parse_arg` (rule.py:152-177, 238-241);
+`uid` is the serial of the class `Rule.annotate` would create.  A typing.Union operand that is NOT splatted by the
+operator (`&`, `^`, classmethod constructors) becomes `Rule[AnyOf(members)]`. -/
 def parseArg (uid : Nat) : Ty → Ty
   | .noneV => .cls noneTypeId
   | .alias k => .annot k uid
   | .lit k => .annot k uid
+  | .str k => .fwd k
+  | .tunion ms => .wrap (.comb .any (ms.map parseMember) (uid * 4096 + 1)) uid
   | t => t
 
 /-- `combine` (rule.py:231-266).  Operand `i` gets the serial `uid + 1 + i`, the result `uid`. -/
@@ -279,18 +307,27 @@ def combineBy (self : Ty) (op : Comb) (uid : Nat) (other : Ty) (reverse : Bool) 
   combine op uid (if reverse then right ++ left else left ++ right)
 
 /-- what Python does for `l <op> r` with `op ∈ {&, |, ^}` when at least one operand is a utype class:
-`LogicalType.__and__/__or__/__xor__` and their reflections (rule.py:296-316), `LogicalMeta` (schema.py:33-59).
+`LogicalType.__and__/__or__/__xor__` and their reflections (rule.py:302-322), `LogicalMeta` (schema.py:33-66).
+`|` with a typing.Union on the right SPLATS its members (rule.py:309-311, schema.py:45-46).
 `none` = the expression never reaches utype (Python's own `type.__or__`, typing's `__or__`) or is a TypeError. -/
 def binop (op : Comb) (uid : Nat) (l r : Ty) : Option Ty :=
   if op = .neg then none else
-  if l.isLogical then some (combineBy l op uid r false)
+  if l.isLogical then
+    match op, r with
+    | .any, .tunion ms =>                                   -- `cls.combine_by("|", other.__args__)`
+      some (combine op uid ((if l.combinator = some op then l.args else [l]) ++ ms))
+    | _, _ => some (combineBy l op uid r false)
   else match l with
     | .dc _ =>
-      if r.isLogical then some (combineBy r op uid l true)       -- `other.__ror__(cls)`
-      else some (combine op uid [l, r])
-    | .cls _ | .noneV | .anyT | .alias _ | .lit _ =>
-      -- `type.__or__` / typing's `__or__` win for `|` unless the right operand's metaclass overrides `__ror__`
-      let typingOr : Bool := op = .any && (match l with | .anyT | .alias _ => true | _ => false)
+      match op, r with
+      | .any, .tunion ms => some (combine op uid (l :: ms))     -- `combine("|", cls, *other.__args__)`
+      | _, _ =>
+        if r.isLogical then some (combineBy r op uid l true)     -- `type(other).__ror__(other, cls)`
+        else some (combine op uid [l, r])
+    | .cls _ | .noneV | .anyT | .alias _ | .lit _ | .str _ | .selfT _ | .tunion _ | .fwd _ =>
+      -- `type.__or__` / typing's `__or__` (also `ForwardRef.__or__`) win for `|` unless the right operand's
+      -- metaclass overrides `__ror__`
+      let typingOr : Bool := op = .any && (match l with | .anyT | .alias _ | .selfT _ | .tunion _ | .fwd _ => true | _ => false)
       if typingOr then none
       else if r.isLogical then some (combineBy r op uid l true)
       else match r with
@@ -347,29 +384,53 @@ def build : Expr → Nat → Option (Ty × Nat)
 /-! ## semantics of a built type over leaf tables (used by the driver; instance of Part A) -/
 
 structure Leaves (V : Type) where
-  exact : Nat → V → Bool                       -- leaf id, value
-  run   : Nat → Opts → V → Except Err V
+  exact : Nat → V → Bool                                    -- leaf id, value
+  /-- a leaf measured in isolation: the value, or ⟨errors it recorded in the context it was given, exception⟩ -/
+  run   : Nat → Opts → V → Except (List Err × Err) V
+  /-- the leaf is a `Rule` class: `Rule.parse` ends with `context.raise_error()` on the context it was GIVEN
+  (rule.py:1768), so it fails in a context that already holds errors; converters of plain classes do not look -/
+  checks : Nat → Bool
 
 section
 variable {V : Type}
 
+/-- a leaf called with the caller's context: a failing leaf may first record errors in it (`Rule.parse`:
+`context.handle_error(error, force_raise=True)`); a succeeding one leaves it untouched, and a `Rule` leaf then
+runs `raise_error()` on it -/
+def Leaves.call (L : Leaves V) (i : Nat) (o : Opts) (c : Ctx) (v : V) : Res V :=
+  match L.run i o v with
+  | .ok r => if L.checks i then raiseError c r else (c, .ok r)
+  | .error (recorded, e) => ({ c with errors := c.errors ++ recorded }, .error e)
+
 mutual
-/-- `context.transformer(value, t)` for a built type -/
+/-- `ctx.transformer(value, t)` for a built type; `c` = error state of `ctx` -/
 def evalTy (L : Leaves V) : Ty → Arg V
-  | .cls i => ⟨L.exact i, L.run i⟩
-  | .rule i => ⟨fun _ => false, L.run i⟩
-  | .dc i => ⟨L.exact i, L.run i⟩
-  | .annot k _ => ⟨fun _ => false, L.run k⟩
-  | .ruleBase => ⟨fun _ => false, fun _ v => .ok v⟩
-  | .anyT => ⟨fun _ => false, fun _ v => .ok v⟩
-  | .noneV => ⟨fun _ => false, fun _ v => .ok v⟩         -- never an argument (parseArg)
-  | .alias _ => ⟨fun _ => false, fun _ v => .ok v⟩       -- never an argument (parseArg)
-  | .lit _ => ⟨fun _ => false, fun _ v => .ok v⟩         -- never an argument (parseArg)
+  | .cls i => ⟨L.exact i, L.call i⟩
+  | .rule i => ⟨fun _ => false, L.call i⟩
+  | .dc i => ⟨L.exact i, L.call i⟩
+  | .annot k _ => ⟨fun _ => false, L.call k⟩
+  | .fwd k => ⟨fun _ => false, L.call k⟩
+  | .selfT i => ⟨fun _ => false, L.call i⟩
+  | .ruleBase => ⟨fun _ => false, fun _ c v => raiseError c v⟩        -- `Rule.parse` without origin: `raise_error()`
+  | .anyT => ⟨fun _ => false, fun _ c v => (c, .ok v)⟩
+  | .noneV => ⟨fun _ => false, fun _ c v => (c, .ok v)⟩         -- never an argument (parseArg)
+  | .alias _ => ⟨fun _ => false, fun _ c v => (c, .ok v)⟩       -- never an argument (parseArg)
+  | .lit _ => ⟨fun _ => false, fun _ c v => (c, .ok v)⟩         -- never an argument (parseArg)
+  | .str _ => ⟨fun _ => false, fun _ c v => (c, .ok v)⟩         -- never an argument (parseArg)
+  | .tunion _ => ⟨fun _ => false, fun _ c v => (c, .ok v)⟩      -- never an argument (parseArg)
+  | .wrap t _ =>
+    -- `Rule.parse` of a rule whose origin is a combinator (rule.py:1699-1770): the origin runs on the SAME context;
+    -- a failure is recorded and re-raised as ParseError; then `raise_error()`
+    let inner := evalTy L t
+    ⟨fun _ => false, fun o c v =>
+      match inner.run o c v with
+      | (c', .ok r) => raiseError c' r
+      | (c', .error _) => (c'.push (.mk Err.parseErrorId []), .error (.mk Err.parseErrorId []))⟩
   | .comb c as _ =>
     let args := evalArgs L as
     ⟨fun _ => false,
      match c with
-     | .all => logicalAll args
+     | .all => logicalAll args          -- nested conditions of `&` work on its own context
      | .any => logicalUnion args
      | .one => logicalXor args
      | .neg => logicalNeg args⟩
